@@ -316,6 +316,8 @@ pub struct Env {
     pub n_fdefs: i32,
     pub n_twilight: i32,
     pub in_glyph: bool,
+    /// keep definitions well-formed (used for "clean" fpgm bodies)
+    pub no_defs: bool,
 }
 
 pub struct Prog {
@@ -426,7 +428,11 @@ fn small(rng: &mut Rng) -> i32 {
 pub fn emit(p: &mut Prog, rng: &mut Rng, env: &Env, depth: usize, used: &mut [u32; 256]) {
     let n = env.n_points + 4;
     let before = p.b.len();
-    match rng.usize(40) {
+    let mut prod = rng.usize(40);
+    if env.no_defs && matches!(prod, 23 | 25 | 26 | 29) {
+        prod = 39;
+    }
+    match prod {
         0 => {
             // stack manipulation
             let k = rng.usize(5);
@@ -648,7 +654,7 @@ pub fn emit(p: &mut Prog, rng: &mut Rng, env: &Env, depth: usize, used: &mut [u3
                     emit(p, rng, env, depth + 1, used);
                 }
             }
-            if !rng.chance(1, 12) {
+            if env.no_defs || !rng.chance(1, 12) {
                 p.op(0x59);
             }
         }
@@ -840,7 +846,7 @@ pub fn gen_block(rng: &mut Rng, env: &Env, max_items: usize, used: &mut [u32; 25
 }
 
 /// fpgm = function definitions (some recursive, some chained deeply), IDEFs.
-pub fn gen_fpgm(rng: &mut Rng, env: &Env, used: &mut [u32; 256], shape: &mut String) -> Vec<u8> {
+pub fn gen_fpgm(rng: &mut Rng, env: &Env, used: &mut [u32; 256], shape: &mut String, clean: bool) -> Vec<u8> {
     let mut p = Prog::new();
     let nf = env.n_fdefs.clamp(0, 40);
     let style = rng.usize(6);
@@ -875,11 +881,11 @@ pub fn gen_fpgm(rng: &mut Rng, env: &Env, used: &mut [u32; 256], shape: &mut Str
                 }
             }
         }
-        if !rng.chance(1, 40) {
+        if clean || !rng.chance(1, 40) {
             p.op(0x2D);
         }
     }
-    if style == 5 || rng.chance(1, 4) {
+    if (style == 5 || rng.chance(1, 4)) && env.n_fdefs > 0 {
         for opc in [0x28, 0x7B, 0x83, 0x8F, 0xA0] {
             p.push(&[opc]).op(0x89);
             for _ in 0..rng.usize(3) {
@@ -888,10 +894,63 @@ pub fn gen_fpgm(rng: &mut Rng, env: &Env, used: &mut [u32; 256], shape: &mut Str
             p.op(0x2D);
         }
     }
-    if rng.chance(1, 5) {
+    if !clean && rng.chance(1, 5) {
         // trailing top-level code in fpgm
         for _ in 0..rng.usize(3) {
             emit(&mut p, rng, env, 0, used);
+        }
+    }
+    for b in &p.b {
+        used[*b as usize] += 1;
+    }
+    p.b
+}
+
+/// A block of instructions that never fails (keeps fpgm / prep alive so that
+/// the glyph programs get to run).
+pub fn benign_block(rng: &mut Rng, env: &Env, used: &mut [u32; 256]) -> Vec<u8> {
+    let mut p = Prog::new();
+    for _ in 0..rng.usize(8) {
+        match rng.usize(12) {
+            0 => {
+                p.push(&[small(rng)]).op(0x21);
+            }
+            1 => {
+                p.op(rng.usize(2) as u8);
+            }
+            2 => {
+                p.op(*rng.pick(&[0x18u8, 0x19, 0x3D, 0x7A, 0x7C, 0x7D]));
+            }
+            3 => {
+                p.push(&[*rng.pick(&[0, 17, 64, 68, 128, 1000])]).op(*rng.pick(&[0x1Du8, 0x1E, 0x1F, 0x1A]));
+            }
+            4 => {
+                p.push(&[*rng.pick(&[0, 1, 0x1FF, 0x2FF, 511])]).op(0x85);
+            }
+            5 => {
+                p.push(&[*rng.pick(&[0, 1, 2, 4, 5])]).op(0x8D);
+            }
+            6 => {
+                p.op(0x4B).op(0x21).op(0x4C).op(0x21);
+            }
+            7 => {
+                p.push(&[*rng.pick(&[1, 2, 6, 37, 64])]).op(0x88).op(0x21);
+            }
+            8 => {
+                p.push(&[small(rng) & 0x3FFF, small(rng) & 0x3FFF]).op(*rng.pick(&[0x60u8, 0x61, 0x63, 0x8B, 0x8C])).op(0x21);
+            }
+            9 => {
+                p.push(&[rng.range(0, 1) as i32]).op(0x58).push(&[7]).op(0x21).op(0x59);
+            }
+            10 if env.n_storage > 0 => {
+                p.push(&[0, small(rng)]).op(0x42).push(&[0]).op(0x43).op(0x21);
+            }
+            11 if env.n_cvt > 0 => {
+                p.push(&[0]).op(0x45).op(0x21);
+            }
+            _ => {
+                p.op(0x4D + rng.usize(2) as u8);
+            }
         }
     }
     for b in &p.b {
@@ -927,7 +986,15 @@ fn rand_contours(rng: &mut Rng, upem: i32) -> Vec<Vec<(i16, i16, bool)>> {
 pub fn gen_program_font(rng: &mut Rng, used: &mut [u32; 256], shape: &mut String) -> TtFont {
     let mut f = TtFont::default();
     f.upem = *rng.pick(&[1000u16, 2048, 1000, 2048, 16, 1, 65535, 64]);
+    // 0: everything hostile; 1: clean fpgm + benign prep, hostile glyph programs;
+    // 2: clean fpgm, hostile prep; 3: like 1 with hostile maxp limits
+    let mode = rng.usize(4);
+    shape.push_str(&format!("mode{};", mode));
+    let hostile_limits = mode == 0 || mode == 3;
     let lim = |rng: &mut Rng, normal: u16| -> u16 {
+        if !hostile_limits {
+            return normal;
+        }
         match rng.usize(8) {
             0 => 0,
             1 => 0xFFFF,
@@ -961,9 +1028,11 @@ pub fn gen_program_font(rng: &mut Rng, used: &mut [u32; 256], shape: &mut String
         n_fdefs: f.maxp.max_fdefs.min(40) as i32,
         n_twilight: f.maxp.max_twilight.min(64) as i32,
         in_glyph: false,
+        no_defs: false,
     };
-    f.fpgm = gen_fpgm(rng, &env, used, shape);
-    f.prep = gen_block(rng, &env, 6, used);
+    let fenv = Env { no_defs: mode != 0, ..Env { n_points: env.n_points, n_contours: env.n_contours, n_cvt: env.n_cvt, n_storage: env.n_storage, n_fdefs: env.n_fdefs, n_twilight: env.n_twilight, in_glyph: false, no_defs: false } };
+    f.fpgm = gen_fpgm(rng, &fenv, used, shape, mode != 0);
+    f.prep = if mode == 1 || mode == 3 { benign_block(rng, &env, used) } else { gen_block(rng, &env, 6, used) };
     // glyph 0 empty, 1 simple with program, 2 simple other program, 3 composite with program, 4 simple no program
     f.glyphs.push(vec![]);
     let genv = Env { in_glyph: true, ..env };
@@ -1049,6 +1118,20 @@ pub fn gen_composite_font(kind: usize, param: usize, rng: &mut Rng, shape: &mut 
     f
 }
 
+/// Deterministic fan-out DAG: glyph 1 is a leaf, glyph k+1 references glyph k `fanout` times.
+pub fn dag_font(levels: usize, fanout: usize) -> TtFont {
+    let mut f = TtFont::default();
+    let leaf = simple_glyph(&[vec![(0, 0, true), (100, 0, true), (100, 100, true), (0, 100, false)]], &[]);
+    let comp = |gid: u16| Component { gid, dx: 5, dy: 5, xform: 0, scale: [0x4000; 4], anchor_points: false, use_my_metrics: false };
+    f.glyphs.push(vec![]);
+    f.glyphs.push(leaf);
+    for i in 0..levels {
+        let comps: Vec<Component> = (0..fanout).map(|_| comp((1 + i) as u16)).collect();
+        f.glyphs.push(composite_glyph(&comps, &[]));
+    }
+    f
+}
+
 // ---------------------------------------------------------------- section
 
 pub fn tt_groups(cfg_seed: u64, rng: &mut Rng, all_glyphs: bool) -> Vec<GroupSpec> {
@@ -1084,8 +1167,33 @@ fn drive_tt(ctx: &mut Ctx, name: &str, shape: &str, bytes: &[u8], category: &str
     }
 }
 
+/// Deterministic (seed-independent) probes of the composite fan-out DAG: one
+/// lookup + one draw of the top glyph. levels=20 is comfortably inside the
+/// progress bound; levels=26 (2^26 component visits for a 1.4 KB font) exceeds it
+/// and is keyed as a known finding (exponential composite traversal, no visit
+/// budget; at the recursion limit of 32 levels the same font shape needs 2^32..3^32 visits).
+pub fn sec_dag_probes(ctx: &mut Ctx, items: &mut Items) {
+    for (levels, fanout) in [(8usize, 2usize), (20, 2), (10, 3), (26, 2)] {
+        if !items.mine(ctx) {
+            continue;
+        }
+        if levels >= 26 && ctx.panics_only {
+            // no panic involved; C20 does not need to pay for the slow case
+            continue;
+        }
+        let f = dag_font(levels, fanout);
+        let bytes = f.build();
+        let mut spec = GroupSpec::new("probe", 0, 0);
+        spec.index = (f.glyphs.len() - 1) as u32;
+        let name = format!("ttcomposite-dag(levels={},fanout={})", levels, fanout);
+        let fc = FontCase { name: &name, mutation: "", category: "ttcomposite-dag", bytes: &bytes };
+        exec_case(ctx, &fc, &spec, None);
+        ctx.count("composite_dag_probes", 1);
+    }
+}
+
 pub fn sec_programs(ctx: &mut Ctx, items: &mut Items) {
-    let n_prog = ctx.tier.pick(6_000usize, 60_000usize);
+    let n_prog = ctx.budget(46_000, 370_000);
     let mut used = [0u32; 256];
     for j in 0..n_prog {
         if !items.mine(ctx) {
@@ -1110,8 +1218,6 @@ pub fn sec_programs(ctx: &mut Ctx, items: &mut Items) {
         let cfg = rng.u64();
         drive_tt(ctx, &name, &shape, &bytes, "ttprog", cfg, &mut rng, false);
     }
-    let distinct_ops = used.iter().filter(|c| **c > 0).count();
-    ctx.distinct("bytecode_opcode_bytes_emitted_max", distinct_ops as u64);
     for (op, c) in used.iter().enumerate() {
         if *c > 0 {
             ctx.distinct("bytecode_byte_values_emitted", op as u64);
@@ -1126,11 +1232,13 @@ pub fn sec_programs(ctx: &mut Ctx, items: &mut Items) {
     for depth in [1usize, 2, 30, 31, 32, 33, 34, 35, 64, 200, 2000] {
         specs.push((1, depth));
     }
-    let dag_max = ctx.tier.pick(12usize, 14usize);
+    // fan-out DAGs are kept small here: the traversal is exponential in the number of
+    // levels (see the dedicated probes below, and the known finding keyed on them)
+    let dag_max = std::env::var("VF_C02_DAG").ok().and_then(|s| s.parse().ok()).unwrap_or(9usize);
     for levels in 1..=dag_max {
         specs.push((2, levels));
     }
-    for _ in 0..ctx.tier.pick(20, 200) {
+    for _ in 0..ctx.budget(20, 200) {
         specs.push((3, 0));
     }
     for k in [1usize, 2, 10, 100, 1000] {
